@@ -550,6 +550,57 @@ fn exhaustive_small(rep: &mut Report, thorough: bool) {
 /// user file and registers `RenderTermini<Type>` in index.mjs.  A type disabled for demo_gen — directly, through
 /// `js` (demo_gen answers to that name too), through a compound condition or a `supports` flag — must leave no
 /// trace there; an enabled one must be bundled.  Run through the real command line (the file is read from disk).
+
+/// Inheritance and special methods: a conditional rename placed on the bridge module reaches every kind of type in
+/// it — opaques, structs, out-structs, enums — exactly as if it were written on each of them; and a rename on an
+/// accessor with an explicit property name renames the property.  Both by equality of whole outputs between the
+/// two spellings, for the backends that render renames, with the false-condition variant equal to no attribute.
+fn rename_equivalence_probe(rep: &mut Report) {
+    let types = |attr: &str| format!("    {attr}#[diplomat::opaque]\n    pub struct Handle(u8);\n    {attr}pub struct Pair {{ pub a: u8, pub b: u8 }}\n    {attr}#[diplomat::out]\n    pub struct Report {{ pub code: u8, pub ok: bool }}\n    {attr}pub enum Mode {{ A, B }}\n    impl Handle {{\n        pub fn pair(&self) -> Pair {{ unimplemented!() }}\n        pub fn report(&self) -> Report {{ unimplemented!() }}\n        pub fn mode(&self, p: Pair) -> Mode {{ unimplemented!() }}\n    }}\n");
+    for (cond, holds_for) in [("cpp", vec!["cpp"]), ("any(js, dart)", vec!["js", "dart"]), ("not(kotlin)", vec!["cpp", "js", "dart"]), ("kotlin", vec![])] {
+        let on_module = format!("#[diplomat::bridge]\n#[diplomat::attr({cond}, rename = \"Lib{{0}}\")]\nmod ffi {{\n{}}}\n", types(""));
+        let on_types = format!("#[diplomat::bridge]\nmod ffi {{\n{}}}\n", types(&format!("#[diplomat::attr({cond}, rename = \"Lib{{0}}\")]\n    ")));
+        let plain = format!("#[diplomat::bridge]\nmod ffi {{\n{}}}\n", types(""));
+        for t in ["cpp", "js", "dart", "c"] {
+            let (a, b, c) = (backend_files(&on_module, t), backend_files(&on_types, t), backend_files(&plain, t));
+            rep.oracle_runs += 1;
+            rep.count("probe:rename-equivalence");
+            let (Ok(a), Ok(b), Ok(c)) = (a, b, c) else { rep.oracle_fail(&format!("(c13 probe module-rename {cond} {t})"), "a backend refuses the rename probe", json!({"backend": t})); continue };
+            let holds = holds_for.contains(&t);
+            if a != b {
+                let diff: Vec<&String> = a.keys().chain(b.keys()).filter(|k| a.get(*k) != b.get(*k)).collect();
+                rep.oracle_fail(&format!("(c13 probe module-rename {cond} {t})"), "a rename on the bridge module is not what the same rename on every type gives", json!({"backend": t, "differing_files": diff.iter().take(8).collect::<Vec<_>>(), "source": on_module}));
+            }
+            if holds == (a == c) && t != "c" {
+                rep.oracle_fail(&format!("(c13 probe module-rename {cond} {t})"), if holds { "a rename whose condition holds changed nothing" } else { "a rename whose condition is false changed the output" }, json!({"backend": t, "source": on_module}));
+            }
+        }
+    }
+    // accessors with an explicit property name
+    let acc = |rn: &str, prop: &str| format!("#[diplomat::bridge]\nmod ffi {{\n    #[diplomat::opaque]\n    pub struct Tank(u8);\n    impl Tank {{\n        {rn}#[diplomat::attr(auto, getter = \"{prop}\")]\n        pub fn level(&self) -> u8 {{ 0 }}\n        {rn}#[diplomat::attr(auto, setter = \"{prop}\")]\n        pub fn set_level(&mut self, v: u8) {{ }}\n    }}\n}}\n");
+    for t in ["js", "dart", "cpp"] {
+        let renamed = backend_files(&acc("#[diplomat::attr(any(js, dart, cpp), rename = \"fill_level\")]\n        ", "level"), t);
+        let by_hand = backend_files(&acc("", "fill_level"), t);
+        let false_cond = backend_files(&acc("#[diplomat::attr(kotlin, rename = \"fill_level\")]\n        ", "level"), t);
+        let plain = backend_files(&acc("", "level"), t);
+        rep.oracle_runs += 1;
+        rep.count("probe:accessor-rename");
+        let (Ok(r), Ok(h), Ok(f), Ok(p)) = (renamed, by_hand, false_cond, plain) else { continue };
+        if f != p {
+            rep.oracle_fail(&format!("(c13 probe accessor-rename {t})"), "a rename whose condition is false changed an accessor", json!({"backend": t}));
+        }
+        // C++ has no properties: accessors are plain methods there and the rename names the method
+        if t != "cpp" && r != h {
+            let diff: Vec<&String> = r.keys().chain(h.keys()).filter(|k| r.get(*k) != h.get(*k)).collect();
+            let line = diff.first().and_then(|k| r.get(*k).zip(h.get(*k))).and_then(|(x, y)| x.lines().zip(y.lines()).find(|(p, q)| p != q).map(|(p, q)| format!("{} | {}", p.trim(), q.trim())));
+            rep.oracle_fail(&format!("(c13 probe accessor-rename {t})"), "a rename (condition true) on an accessor with an explicit property name is not what naming the property so gives", json!({"backend": t, "differing_files": diff.iter().take(4).collect::<Vec<_>>(), "first_difference": line}));
+        }
+        if t != "cpp" && r == p {
+            rep.oracle_fail(&format!("(c13 probe accessor-rename {t})"), "a rename whose condition holds left the accessor's name alone", json!({"backend": t}));
+        }
+    }
+}
+
 fn demo_custom_func_probe(rep: &mut Report) {
     use diplomat_core::ast::attrs::DiplomatBackendAttrCfg as Cfg;
     let conds: [(&str, &str); 8] = [
@@ -637,6 +688,7 @@ pub fn main(args: &[String]) {
     }
     exports_oracle(&mods, if thorough { 200 } else { 24 }, &mut rep);
     demo_custom_func_probe(&mut rep);
+    rename_equivalence_probe(&mut rep);
     crate::tool::alias_probe(&mut rep, "C13", crate::tool::ALIAS_SRC);
     rep.print();
 }
